@@ -676,7 +676,30 @@ impl<'a> AasmParser<'a> {
                 let c = self.parse_u8()?;
                 encode_a(OpCode::XorIImm, a, b, c)
             }
-            _ => return Err(AssemblerError::UnknownOpcode(opcode_name)),
+            other => match collection_opcode(other) {
+                Some((op, CollectionShape::TwoRegs)) => {
+                    let a = self.parse_register()?;
+                    self.skip_comma()?;
+                    let b = self.parse_register()?;
+                    encode_a(op, a, b, 0)
+                }
+                Some((op, CollectionShape::ThreeRegs)) => self.parse_ternary_reg(op)?,
+                Some((op, CollectionShape::RegRegCount)) => {
+                    let a = self.parse_register()?;
+                    self.skip_comma()?;
+                    let b = self.parse_register()?;
+                    self.skip_comma()?;
+                    let c = self.parse_u8()?;
+                    encode_a(op, a, b, c)
+                }
+                Some((op, CollectionShape::RegOffset)) => {
+                    let a = self.parse_register()?;
+                    self.skip_comma()?;
+                    let offset = self.parse_i16()?;
+                    encode_b(op, a, offset)
+                }
+                None => return Err(AssemblerError::UnknownOpcode(opcode_name)),
+            },
         };
 
         bytecode.push(instr);
@@ -765,6 +788,83 @@ impl<'a> AasmParser<'a> {
         self.advance()?;
 
         Ok(idx)
+    }
+}
+
+// Array / Vec / string-iteration opcodes (130..=179), by operand shape as the
+// disassembler prints them.
+enum CollectionShape {
+    TwoRegs,      // op rA, rB
+    ThreeRegs,    // op rA, rB, rC
+    RegRegCount,  // op rA, rB, n      (ArrayLit / VecLit)
+    RegOffset,    // op rA, offset     (for-each loops)
+}
+
+fn collection_opcode(name: &str) -> Option<(OpCode, CollectionShape)> {
+    let two = match name {
+        "ArrayNewI" => OpCode::ArrayNewI,
+        "ArrayNewF" => OpCode::ArrayNewF,
+        "ArrayNewB" => OpCode::ArrayNewB,
+        "ArrayNewP" => OpCode::ArrayNewP,
+        "ArrayLen" => OpCode::ArrayLen,
+        "VecNewI" => OpCode::VecNewI,
+        "VecNewF" => OpCode::VecNewF,
+        "VecNewB" => OpCode::VecNewB,
+        "VecNewP" => OpCode::VecNewP,
+        "VecPushI" => OpCode::VecPushI,
+        "VecPushF" => OpCode::VecPushF,
+        "VecPushB" => OpCode::VecPushB,
+        "VecPushP" => OpCode::VecPushP,
+        "VecPopI" => OpCode::VecPopI,
+        "VecPopF" => OpCode::VecPopF,
+        "VecPopB" => OpCode::VecPopB,
+        "VecPopP" => OpCode::VecPopP,
+        "VecLen" => OpCode::VecLen,
+        "VecCap" => OpCode::VecCap,
+        "VecReserve" => OpCode::VecReserve,
+        _ => OpCode::Move,
+    };
+    if two != OpCode::Move {
+        return Some((two, CollectionShape::TwoRegs));
+    }
+    let three = match name {
+        "ArrayLoadI" => OpCode::ArrayLoadI,
+        "ArrayLoadF" => OpCode::ArrayLoadF,
+        "ArrayLoadB" => OpCode::ArrayLoadB,
+        "ArrayLoadP" => OpCode::ArrayLoadP,
+        "ArrayGetI" => OpCode::ArrayGetI,
+        "ArrayGetF" => OpCode::ArrayGetF,
+        "ArrayGetB" => OpCode::ArrayGetB,
+        "ArrayGetP" => OpCode::ArrayGetP,
+        "ArrayStoreI" => OpCode::ArrayStoreI,
+        "ArrayStoreF" => OpCode::ArrayStoreF,
+        "ArrayStoreB" => OpCode::ArrayStoreB,
+        "ArrayStoreP" => OpCode::ArrayStoreP,
+        "VecLoadI" => OpCode::VecLoadI,
+        "VecLoadF" => OpCode::VecLoadF,
+        "VecLoadB" => OpCode::VecLoadB,
+        "VecLoadP" => OpCode::VecLoadP,
+        "VecGetI" => OpCode::VecGetI,
+        "VecGetF" => OpCode::VecGetF,
+        "VecGetB" => OpCode::VecGetB,
+        "VecGetP" => OpCode::VecGetP,
+        "VecStoreI" => OpCode::VecStoreI,
+        "VecStoreF" => OpCode::VecStoreF,
+        "VecStoreB" => OpCode::VecStoreB,
+        "VecStoreP" => OpCode::VecStoreP,
+        "StringLoadChar" => OpCode::StringLoadChar,
+        _ => OpCode::Move,
+    };
+    if three != OpCode::Move {
+        return Some((three, CollectionShape::ThreeRegs));
+    }
+    match name {
+        "ArrayLit" => Some((OpCode::ArrayLit, CollectionShape::RegRegCount)),
+        "VecLit" => Some((OpCode::VecLit, CollectionShape::RegRegCount)),
+        "StringForLoop" => Some((OpCode::StringForLoop, CollectionShape::RegOffset)),
+        "VecForLoop" => Some((OpCode::VecForLoop, CollectionShape::RegOffset)),
+        "ArrayForLoop" => Some((OpCode::ArrayForLoop, CollectionShape::RegOffset)),
+        _ => None,
     }
 }
 
